@@ -26,7 +26,50 @@ ASSUMPTIONS = [
 ]
 DUTIES = ["d1", "d2", "d3"]
 PKS = ["p1", "p2", "p3", "p4"]
-VALS = ["a", "b", "c", "d"]
+VALS = ["a", "b", "c", "d"]          # a: attestation, b: beacon committee selection, c: sync committee selection, d: randao
+TWIN_SHARE = 0.5                     # share of conflicting re-stores that use the TWIN of the stored value
+
+
+def twin(v):
+    """The twin of a model value ("a" <-> "at"): in the executor's table the same type and the same signature bytes, but
+    another field differs (aggregation bits / validator index / epoch).  For the spec it is just a different value."""
+    return v[:-1] if len(v) > 1 and v.endswith("t") else v + "t"
+
+
+def other_than(r, have):
+    """A value that conflicts with `have`: its twin with probability TWIN_SHARE, else one with another signature."""
+    if r.random() < TWIN_SHARE:
+        return twin(have)
+    return r.choice([x for x in VALS + [twin(x) for x in VALS] if x not in (have, twin(have))])
+
+
+def twinify(seed, scheds):
+    """TLC-generated schedules draw values uniformly from the Gen cfg's Vals; give conflicting re-stores a fair share of
+    twins: walking the schedule with a guess of what is stored, an entry that (by the guess) conflicts with the stored
+    value v is rewritten to twin(v) with probability TWIN_SHARE.  Still only a schedule: nothing is expected of it."""
+    r = vlib.rng(seed, "c17twin")
+    out = []
+    for sch in scheds:
+        cur, new = {}, []
+        for st in sch:
+            st = dict(st)
+            if st["ev"] == "Store":
+                ents = []
+                for e in st["set"]:
+                    kk = (e["k"]["d"], e["k"]["p"])
+                    v = e["v"]
+                    if kk in cur and cur[kk] != v and r.random() < TWIN_SHARE:
+                        v = twin(cur[kk])
+                    ents.append({"k": e["k"], "v": v})
+                for e in ents:
+                    cur.setdefault((e["k"]["d"], e["k"]["p"]), e["v"])
+                st["set"] = ents
+            elif st["ev"] == "Expire":
+                for kk in [kk for kk in cur if kk[0] == st["d"]]:
+                    del cur[kk]
+            new.append(st)
+        out.append(new)
+    return out
 
 
 def random_schedules(seed, n, big):
@@ -64,7 +107,7 @@ def random_schedules(seed, n, big):
                     v = r.choice(VALS)
                 else:
                     c = conflict if conflict is not None else (r.random() < 0.4)
-                    v = r.choice([x for x in VALS if x != have]) if c else have
+                    v = other_than(r, have) if c else have
                 ents.append({"k": {"d": d, "p": p}, "v": v})
             for e in ents:      # optimistic guess; the executor and the spec do not depend on it
                 cur.setdefault((e["k"]["d"], e["k"]["p"]), e["v"])
@@ -98,7 +141,7 @@ def random_schedules(seed, n, big):
                     await_({"d": d, "p": p})
                     if r.random() < 0.4:
                         await_({"d": d, "p": p})
-            ents = [{"k": {"d": d, "p": p0}, "v": r.choice([x for x in VALS if x != v0])}]
+            ents = [{"k": {"d": d, "p": p0}, "v": other_than(r, v0)}]
             ents += [{"k": {"d": d, "p": p}, "v": r.choice(VALS)} for p in pks if p != p0]
             r.shuffle(ents)
             steps.append({"ev": "Store", "set": ents})
@@ -147,6 +190,10 @@ def concurrent_schedules(seed, n, big):
         nw = 2 if r.random() < 0.7 else 3
         p0 = r.choice(pks)
         vs = r.sample(VALS, 3)
+        if r.random() < TWIN_SHARE:
+            vs[1] = twin(vs[0])                     # the writers' conflicting values share their signature bytes
+        elif r.random() < 0.3:
+            vs[2] = twin(vs[0])                     # ... or only the third writer's does
         if kind == "stored-conflict":
             steps.append({"ev": "Store", "set": [ent(p0, vs[0])]})
         if kind == "fresh-conflict":
@@ -321,6 +368,7 @@ def run(tier, seed):
     # stage 1: schedules
     scheds, g = vlib.gen_schedules("C17", FAMILY, "AggSigDBGen", "AggSigDBGen.cfg", num=400 if thorough else 60,
                                    depth=60, seed=seed, limit=2500 if thorough else 250)
+    scheds = twinify(seed, scheds)
     rnd = random_schedules(seed, 2000 if thorough else 250, thorough)
     # stage 2+3 (each schedule runs on v1 and on v2)
     conform(o, scheds, "tlcgen")
